@@ -383,6 +383,14 @@ func cmdSelftest(prop, tier string, seed uint64, count int) int {
 	for i := 0; i < count; i++ {
 		s := seed + uint64(i)
 		spec := e.Gen(prop, s, tier)
+		if spec == nil {
+			// enumerated space (C15): fold the seed into the list
+			s = s % 300
+			spec = e.Gen(prop, s, tier)
+			if spec == nil {
+				continue
+			}
+		}
 		res := e.Exec(spec)
 		v := ""
 		if res.Viol != nil {
